@@ -24,6 +24,13 @@
      b \in {"reexport","infer","internal"}  from c import f as f | f = c.f | def f()->int: return c.f()
      a \in {"use","nouse"}                v: int = b.f()   |  (nothing)
    A module's exported content is abstract but INJECTIVE (a hash equals the content it hashes).
+
+   WithAbsent: c may be DELETED and re-created (content Absent).  b then has no dependency c but a
+   SUPPRESSED one; the meta record lists both.  load_graph's two checks are modelled in Load:
+   a dependency listed in the meta that cannot be found any more (State.is_fresh: dependency list
+   changed) and a suppressed dependency that can now be found (exist_added_packages) make the
+   entry unusable.  The records of the deleted module stay in the store and are judged again when
+   the module comes back.
 *)
 EXTENDS Naturals, Sequences, FiniteSets, TLC, Json
 CONSTANTS MaxRuns, MaxEdits, MaxTouch,
@@ -33,12 +40,14 @@ CONSTANTS MaxRuns, MaxEdits, MaxTouch,
           FreshOldHash,    \* code behaviour: the "old interface hash" that lets WData be skipped is only
                            \* trusted when the data record is the one the decoded meta describes
           DropMetaOnFail,  \* code behaviour: a failed meta write removes the old meta (so it cannot pair with the new meta_ex)
-          UseIndirect      \* code behaviour: indirect dependency hashes take part in freshness (FALSE = mutant)
+          UseIndirect,     \* code behaviour: indirect dependency hashes take part in freshness (FALSE = mutant)
+          WithAbsent,      \* the environment may delete / re-create module c
+          CheckDepList     \* code behaviour: an entry whose dependency / suppressed lists no longer match what can be found is unusable (FALSE = mutant)
 
 Order == <<"c", "b", "a">>          \* processing order (dependencies first)
 LoadOrder == <<"a", "b", "c">>      \* load_graph: BFS from the source
 ModSet == {"a", "b", "c"}
-DirectDeps(m) == IF m = "a" THEN {"b"} ELSE IF m = "b" THEN {"c"} ELSE {}
+Absent == [iface |-> 9, err |-> 0]
 BKinds == {"reexport", "infer", "internal"}
 None == [k |-> "none"]
 NoHash == 99
@@ -55,14 +64,21 @@ vars == <<fs, durable, pend, clock, pc, runs, edits, touches, fails, valid, oldH
 mcview == <<fs, durable, pend, clock, pc, runs, edits, touches, fails, valid, oldHash, dmt, view, reported, stale>>
 
 Content(m) == IF m = "c" THEN fs.c ELSE IF m = "b" THEN fs.b ELSE fs.a
+CPresent == fs.c # Absent
+Present(m) == m # "c" \/ CPresent
+\* what parsing + module search give NOW: dependencies that are found, and those that are not (suppressed)
+DirectDeps(m) == IF m = "a" THEN {"b"} ELSE IF m = "b" /\ CPresent THEN {"c"} ELSE {}
+Suppressed(m) == IF m = "b" /\ ~CPresent THEN {"c"} ELSE {}
 
 \* ------------------------------------------------------------------ from-scratch semantics
 CContent(f) == f.c.iface
-BContent(f) == IF f.b = "infer" THEN 10 + f.c.iface ELSE IF f.b = "reexport" THEN 5 ELSE 7
-ResolveThrough(bc, cc) == IF bc = 5 THEN cc ELSE IF bc >= 10 THEN bc - 10 ELSE 0
-Diag(f) == (IF f.c.err = 1 THEN {"c"} ELSE {})
-      \cup (IF f.b = "internal" /\ f.c.iface = 1 THEN {"b"} ELSE {})
-      \cup (IF f.a = "use" /\ ResolveThrough(BContent(f), CContent(f)) = 1 THEN {"a"} ELSE {})
+\* with c missing, b.f is Any (re-export: 20, inferred: 21), b reports the failed import, a has nothing to complain about
+BContent(f) == IF f.c = Absent THEN (IF f.b = "infer" THEN 21 ELSE IF f.b = "reexport" THEN 20 ELSE 22)   \* the name c itself is part of b's interface
+               ELSE IF f.b = "infer" THEN 10 + f.c.iface ELSE IF f.b = "reexport" THEN 5 ELSE 7
+ResolveThrough(bc, cc) == IF bc = 5 THEN cc ELSE IF bc >= 10 /\ bc < 20 THEN bc - 10 ELSE 0
+Diag(f) == (IF f.c # Absent /\ f.c.err = 1 THEN {"c"} ELSE {})
+      \cup (IF f.c = Absent \/ (f.b = "internal" /\ f.c.iface = 1) THEN {"b"} ELSE {})
+      \cup (IF f.a = "use" /\ f.c # Absent /\ ResolveThrough(BContent(f), CContent(f)) = 1 THEN {"a"} ELSE {})
 
 \* ------------------------------------------------------------------ store
 Keep == [k |-> "keep"]
@@ -94,10 +110,11 @@ EditTo(m, v) == /\ pc = <<"idle">> /\ edits < MaxEdits /\ v # Content(m)
                 /\ h' = Append(h, [ev |-> "edit", mod |-> m, v |-> ToJson(v)])
                 /\ UNCHANGED <<durable, pend, pc, runs, touches, fails>> /\ RunLocalUnchanged
 Edit == \/ \E i \in 0..1, e \in 0..1 : EditTo("c", [iface |-> i, err |-> e])
+        \/ WithAbsent /\ EditTo("c", Absent)
         \/ \E k \in BKinds : EditTo("b", k)
         \/ \E u \in {"use", "nouse"} : EditTo("a", u)
 Touch == /\ pc = <<"idle">> /\ touches < MaxTouch
-         /\ \E m \in ModSet : /\ fs' = [fs EXCEPT !.tick[m] = clock]
+         /\ \E m \in ModSet : /\ Present(m) /\ fs' = [fs EXCEPT !.tick[m] = clock]
                               /\ h' = Append(h, [ev |-> "touch", mod |-> m, v |-> ""])
          /\ clock' = clock + 1 /\ touches' = touches + 1 /\ reported' = {}
          /\ UNCHANGED <<durable, pend, pc, runs, edits, fails>> /\ RunLocalUnchanged
@@ -118,12 +135,14 @@ Load == /\ pc[1] = "load"
                r == Vis(m)
                dec == Decodable(r)
                srcSame == dec /\ r.meta.src = Content(m)
-               ok == dec /\ DataMatches(r) /\ srcSame
-               needRewrite == ok /\ r.meta.srcTick # fs.tick[m]   \* mtime differs, hash equal
+               \* load_graph: a listed dependency that is gone / a suppressed one that can now be found
+               listsOK == dec /\ (CheckDepList => (r.meta.deps = DirectDeps(m) /\ r.meta.supp = Suppressed(m)))
+               ok == Present(m) /\ dec /\ DataMatches(r) /\ srcSame /\ listsOK
+               needRewrite == Present(m) /\ dec /\ DataMatches(r) /\ srcSame /\ r.meta.srcTick # fs.tick[m]   \* mtime differs, hash equal
                nextpc == IF pc[2] = 3 THEN <<"mod", 1>> ELSE <<"load", pc[2] + 1>>
            IN /\ valid' = [valid EXCEPT ![m] = ok]
-              /\ oldHash' = [oldHash EXCEPT ![m] = IF dec /\ (FreshOldHash => DataMatches(r)) THEN r.meta.iface ELSE NoHash]
-              /\ IF needRewrite
+              /\ oldHash' = [oldHash EXCEPT ![m] = IF Present(m) /\ dec /\ (FreshOldHash => DataMatches(r)) THEN r.meta.iface ELSE NoHash]
+              /\ IF needRewrite /\ srcSame /\ DataMatches(r) /\ Present(m)
                  THEN \/ /\ Put(m, "meta", [r.meta EXCEPT !.srcTick = fs.tick[m]]) /\ UNCHANGED fails
                       \/ /\ MayFail /\ fails' = fails + 1 /\ UNCHANGED <<durable, pend>>
                  ELSE UNCHANGED <<durable, pend, fails>>
@@ -133,23 +152,28 @@ Load == /\ pc[1] = "load"
 \* ------------------------------------------------------------------ freshness (find_stale_sccs)
 Cur == Order[pc[2]]
 Fresh(m) == /\ valid[m]
-            /\ \A d \in DirectDeps(m) : Vis(m).meta.depHash[d] = view[d].hash
-            /\ (UseIndirect => \A d \in DOMAIN Vis(m).ex.indHash : Vis(m).ex.indHash[d] = view[d].hash)
+            /\ \A d \in DOMAIN Vis(m).meta.depHash : view[d] # None /\ Vis(m).meta.depHash[d] = view[d].hash
+            /\ (UseIndirect => \A d \in DOMAIN Vis(m).ex.indHash : view[d] # None /\ Vis(m).ex.indHash[d] = view[d].hash)
 NextMod == IF pc[2] = 3 THEN <<"done">> ELSE <<"mod", pc[2] + 1>>
-ProcFresh == /\ pc[1] = "mod" /\ Fresh(Cur)
+\* a module that does not exist is not part of the build
+ProcAbsent == /\ pc[1] = "mod" /\ ~Present(Cur) /\ pc' = NextMod
+              /\ UNCHANGED <<fs, durable, pend, clock, runs, edits, touches, fails, valid, oldHash, dmt, view, reported, stale, h>>
+ProcFresh == /\ pc[1] = "mod" /\ Present(Cur) /\ Fresh(Cur)
              /\ reported' = reported \cup (IF Vis(Cur).ex.err THEN {Cur} ELSE {})
              /\ view' = [view EXCEPT ![Cur] = [hash |-> Vis(Cur).meta.iface, content |-> Vis(Cur).data.content]]
              /\ pc' = NextMod
              /\ UNCHANGED <<fs, durable, pend, clock, runs, edits, touches, fails, valid, oldHash, dmt, stale, h>>
 \* ------------------------------------------------------------------ analysis against the views
+CSeen == view["c"] # None      \* c is part of this build
 AnalyseContent(m) == IF m = "c" THEN fs.c.iface
-                     ELSE IF m = "b" THEN (IF fs.b = "infer" THEN 10 + view["c"].content ELSE IF fs.b = "reexport" THEN 5 ELSE 7)
+                     ELSE IF m = "b" THEN (IF ~CSeen THEN (IF fs.b = "infer" THEN 21 ELSE IF fs.b = "reexport" THEN 20 ELSE 22)
+                                           ELSE IF fs.b = "infer" THEN 10 + view["c"].content ELSE IF fs.b = "reexport" THEN 5 ELSE 7)
                      ELSE 9
 AnalyseErr(m) == IF m = "c" THEN fs.c.err = 1
-                 ELSE IF m = "b" THEN fs.b = "internal" /\ view["c"].content = 1
-                 ELSE fs.a = "use" /\ ResolveThrough(view["b"].content, view["c"].content) = 1
-IndirectDeps(m) == IF m = "a" /\ fs.a = "use" /\ view["b"].content = 5 THEN {"c"} ELSE {}
-ProcStale == /\ pc[1] = "mod" /\ ~Fresh(Cur)
+                 ELSE IF m = "b" THEN ~CSeen \/ (fs.b = "internal" /\ view["c"].content = 1)
+                 ELSE fs.a = "use" /\ CSeen /\ ResolveThrough(view["b"].content, view["c"].content) = 1
+IndirectDeps(m) == IF m = "a" /\ fs.a = "use" /\ view["b"].content = 5 /\ CSeen THEN {"c"} ELSE {}
+ProcStale == /\ pc[1] = "mod" /\ Present(Cur) /\ ~Fresh(Cur)
              /\ view' = [view EXCEPT ![Cur] = [hash |-> AnalyseContent(Cur), content |-> AnalyseContent(Cur)]]
              /\ reported' = reported \cup (IF AnalyseErr(Cur) THEN {Cur} ELSE {})
              /\ stale' = stale \cup {Cur}
@@ -175,7 +199,8 @@ CommitData == /\ pc[1] = "cdata" /\ CommitShard(Cur)
 RmEx == /\ pc[1] = "rmex" /\ Put(Cur, "ex", None) /\ pc' = <<"wmeta", pc[2]>>
         /\ UNCHANGED <<fs, clock, runs, edits, touches, fails, valid, oldHash, dmt, view, reported, stale, h>>
 NewMeta == [k |-> "meta", src |-> Content(Cur), srcTick |-> fs.tick[Cur], dataTick |-> dmt,
-            iface |-> view[Cur].hash, depHash |-> [d \in DirectDeps(Cur) |-> view[d].hash]]
+            iface |-> view[Cur].hash, depHash |-> [d \in DirectDeps(Cur) |-> view[d].hash],
+            deps |-> DirectDeps(Cur), supp |-> Suppressed(Cur)]
 WMeta == /\ pc[1] = "wmeta"
          /\ \/ Put(Cur, "meta", NewMeta) /\ UNCHANGED fails
             \/ /\ MayFail /\ fails' = fails + 1                                  \* write returned False: logged, the run goes on
@@ -198,7 +223,7 @@ Crash == /\ WithCrash /\ pc \notin {<<"idle">>, <<"done">>}
          /\ h' = Append(h, [ev |-> "crash", mod |-> "", v |-> ""])
          /\ UNCHANGED <<fs, durable, clock, runs, edits, touches, fails>> /\ RunLocalUnchanged
 
-Next == Edit \/ Touch \/ StartRun \/ Load \/ ProcFresh \/ ProcStale \/ WData \/ GetMtime \/ CommitData
+Next == Edit \/ Touch \/ StartRun \/ Load \/ ProcAbsent \/ ProcFresh \/ ProcStale \/ WData \/ GetMtime \/ CommitData
         \/ RmEx \/ WMeta \/ WEx \/ CommitMeta \/ Finish \/ Crash
 Spec == Init /\ [][Next]_vars
 
